@@ -12,6 +12,10 @@ DESIGN.md section 5 / C10 list, status:
   vtr / cog / ncog / crt / solimp / nct / vtrcog / popspread / evallimits / interrupt / timelimits _spec   proved
   extra: gradnorm_spec (norm = inf), build_den_partial (expressions through the constructors `__new__`),
          when_or_unpacked_witness, cog_negative_tolerance_witness
+Deepening (files Props/C10/Grad.lean, Collapse.lean, Keys.lean, imported below):
+  gradp_* / approx*                    GradientNormTolerance for every norm, on the solver's gradient or approx_fprime of the raw cost
+  collapse_at_spec / collapse_as_spec / collapse_report_iff / collapse_guard      Collapse* as termination conditions
+  keyEq_refl / keyEq_ignores_class / keyEq_prim / state_keys_spec                 conditions as dict keys, keys of state()
 NOT proved (model + correspondence only): statements about the `'self'` and `'not'` call modes; `and_iff/or_iff` under
 the weaker hypothesis "colliding keys are the same object" (e.g. `And(a, a)`); `build_den` for the harmless
 unpackings (`When(And(a, b))`, `And(And(a, b))`).
